@@ -262,6 +262,12 @@ func runCLI(args []string) int {
 			}
 			fmt.Println()
 		}
+		if len(names) == 0 || os.Getenv("GVC_LEMMAS") != "" {
+			_, lerrs := E.GenLemmas(cfg.Prop)
+			for _, le := range lerrs {
+				fmt.Println("LEMMA ERROR:", le)
+			}
+		}
 		fmt.Printf("generation: %.1fs\n", time.Since(t0).Seconds())
 		res := E.solveAll(cfg)
 		nfail := 0
